@@ -250,10 +250,16 @@ pub fn solve_sys(a: &[f64], b: &[f64]) -> Vec<f64> {
         let mut solutions = Vec::with_capacity(b.len());
         let b = row_to_col_major(b, n);
 
-        if is_positive_definite(a) {
+        // symmetry and a positive diagonal are only necessary for positive definiteness: fall
+        // back to LU when the Cholesky factorisation fails
+        let chol = if is_positive_definite(a) {
+            try_cholesky(a)
+        } else {
+            None
+        };
+        if let Some(l) = chol {
             #[cfg(feature = "verif-hooks")]
             crate::verif_hooks::tick(crate::verif_hooks::Site::SolveSysChol);
-            let l = cholesky(a);
             for i in 0..nsys {
                 let sol = cholesky_solve(&l, &b[(i * n)..((i + 1) * n)]);
                 assert_eq!(sol.len(), n);
@@ -303,10 +309,16 @@ pub fn solve(a: &[f64], b: &[f64]) -> Vec<f64> {
 
     #[cfg(not(feature = "lapack"))]
     {
-        if is_positive_definite(a) {
+        // symmetry and a positive diagonal are only necessary for positive definiteness: fall
+        // back to LU when the Cholesky factorisation fails
+        let chol = if is_positive_definite(a) {
+            try_cholesky(a)
+        } else {
+            None
+        };
+        if let Some(l) = chol {
             #[cfg(feature = "verif-hooks")]
             crate::verif_hooks::tick(crate::verif_hooks::Site::SolveChol);
-            let l = cholesky(a);
             cholesky_solve(&l, b)
         } else {
             #[cfg(feature = "verif-hooks")]
